@@ -193,6 +193,30 @@ impl RawGen {
         }
     }
 
+    /// One line that reads every allocated integer and array element (at most 60 reads).
+    pub fn alloc_probe_line(&self) -> Option<String> {
+        let mut s = String::new();
+        let mut n = 0;
+        for i in self.ints.iter() {
+            s.push_str(&format!("\\the{i};"));
+            n += 1;
+        }
+        for (a, len) in self.arrays.iter() {
+            for i in 0..*len {
+                if n >= 60 {
+                    break;
+                }
+                s.push_str(&format!("\\the{a} {i};"));
+                n += 1;
+            }
+        }
+        if n == 0 {
+            None
+        } else {
+            Some(s)
+        }
+    }
+
     pub fn open_conditionals(&self) -> usize {
         self.conds.len()
     }
@@ -276,7 +300,18 @@ impl RawGen {
             }
             "alloc" => {
                 let id = self.id();
-                match rng.below(4) {
+                match rng.below(6) {
+                    4 => {
+                        // read back, possibly long after the write and after groups have closed
+                        let n = self.ints.get(rng.below(self.ints.len().max(1)))?.clone();
+                        Some(format!("\\the{n};"))
+                    }
+                    5 => {
+                        let (n, len) = self.arrays.get(rng.below(self.arrays.len().max(1)))?.clone();
+                        let i = rng.below(len);
+                        self.reach.push("array_element_read_back");
+                        Some(format!("\\the{n} {i};"))
+                    }
                     0 => {
                         let n = format!("\\xi{}", name_from(id));
                         self.ints.push(n.clone());
@@ -284,20 +319,36 @@ impl RawGen {
                         Some(format!("\\newInt{n} {n}={} ", id))
                     }
                     1 => {
-                        let n = format!("\\xj{}", name_from(id));
-                        let len = 1 + rng.below(4);
-                        self.arrays.push((n.clone(), len));
-                        self.reach.push("newintarray_allocated");
-                        Some(format!("\\newIntArray{n} {len} {n} 0={} ", id))
+                        // the first allocation makes two or three arrays, so that there is an
+                        // order of arrays for a checkpoint to preserve
+                        let k = if self.arrays.is_empty() { 2 + rng.below(2) } else { 1 };
+                        let mut s = String::new();
+                        for j in 0..k {
+                            let n = format!("\\xj{}", name_from(id * 4 + j as u32));
+                            let len = 1 + rng.below(4);
+                            self.arrays.push((n.clone(), len));
+                            self.reach.push("newintarray_allocated");
+                            s.push_str(&format!("\\newIntArray{n} {len} {n} 0={} ", id + j as u32));
+                        }
+                        Some(s)
                     }
                     2 => {
                         let n = self.ints.get(rng.below(self.ints.len().max(1)))?.clone();
                         Some(format!("{n}={} \\the{n};", id))
                     }
                     _ => {
-                        let (n, len) = self.arrays.get(rng.below(self.arrays.len().max(1)))?.clone();
-                        let i = rng.below(len);
-                        Some(format!("{n} {i}={} \\the{n} {i};", id))
+                        // write one element of up to three arrays (locally, if a group is open)
+                        if self.arrays.is_empty() {
+                            return None;
+                        }
+                        let mut s = String::new();
+                        let first = rng.below(self.arrays.len());
+                        for j in 0..self.arrays.len().min(3) {
+                            let (n, len) = self.arrays[(first + j) % self.arrays.len()].clone();
+                            let i = rng.below(len);
+                            s.push_str(&format!("{n} {i}={} \\the{n} {i};", id + j as u32));
+                        }
+                        Some(s)
                     }
                 }
             }
